@@ -984,7 +984,65 @@ def check_schema_atomic(u):
     return obligations, failures, ["%s:%d lock < clone+insert < constrain? < immediate_transaction? < apply_schema? < commit? < apply_res? < *schema_write = new_schema" % (file, _line(src, p_lock))]
 
 
-CHECKS = {"schema_ddl": check_schema_ddl, "schema_atomic": check_schema_atomic, "seq_range_guard": check_seq_range_guard, "exits_covered": check_exits_covered, "sub_lag_stops": check_sub_lag_stops, "single_snapshot": check_single_snapshot, "offer_loops": check_offer_loops, "speedy_prealloc": check_speedy_prealloc, "from_conn": check_from_conn, "sql_actor_scoping": check_sql_actor_scoping, "local_write_sequence": check_local_write_sequence, "insert_local_changes": check_insert_local_changes, "authz_layer": check_authz_layer, "readonly_guard": check_readonly_guard, "read_pool": check_read_pool}
+def check_cluster_id_fresh(u):
+    """C16: the node's own cluster id can change at runtime (admin `cluster set-id` -> Agent::set_cluster_id).  Every decision that compares
+    a peer's / member's / frame's cluster id with OURS must read `agent.cluster_id()` when it decides, not a copy taken when a connection
+    was accepted or a loop was entered — otherwise a node that moved to another cluster keeps applying (or sending) across the boundary."""
+    obligations = ["uni-handler-is-not-given-a-copy-of-the-cluster-id-at-accept-time", "uni-handler-compares-with-a-value-obtained-per-frame",
+                   "broadcast-loop-does-not-copy-the-cluster-id-before-the-loop"]
+    failures, samples = [], []
+    # (1) call site of the uni handler
+    f1 = "crates/klukai-agent/src/agent/handlers.rs"
+    src, msk, o, c = _fn_body(f1, "spawn_incoming_connection_handlers")
+    m = re.search(r"spawn_unipayload_handler\w*\s*\(", msk[o:c])
+    if not m:
+        raise LostAnchor("spawn_incoming_connection_handlers: call of spawn_unipayload_handler* not found")
+    ao = o + m.end() - 1
+    ac = match_delim(msk, ao)
+    # top-level arguments
+    args, depth, st = [], 0, ao + 1
+    for k in range(ao + 1, ac):
+        ch = msk[k]
+        if ch in "([{":
+            depth += 1
+        elif ch in ")]}":
+            depth -= 1
+        elif ch == "," and depth == 0:
+            args.append((st, k))
+            st = k + 1
+    if msk[st:ac].strip():
+        args.append((st, ac))
+    for (a, b) in args:
+        if re.fullmatch(r"\s*agent\s*\.\s*cluster_id\s*\(\s*\)\s*", msk[a:b]):
+            failures.append((obligations[0], _line(src, a), "`agent.cluster_id()` is evaluated once when the connection is accepted and handed to the uni handler by value", f1))
+    samples.append("%s:%d uni handler call site" % (f1, _line(src, ao)))
+    # (2) the comparison inside the uni handler
+    f2 = "crates/klukai-agent/src/agent/uni.rs"
+    src2 = open(os.path.join(REPO, f2)).read()
+    msk2 = mask(src2)
+    cm = re.search(r"\bif\s+([^{;]*?)\s*!=\s*payload_cluster_id\s*\{|\bif\s+payload_cluster_id\s*!=\s*([^{;]*?)\s*\{", msk2)
+    if not cm:
+        raise LostAnchor("uni.rs: comparison with payload_cluster_id not found")
+    ours = (cm.group(1) or cm.group(2)).strip()
+    if not re.search(r"\(\s*\)\s*$", ours):
+        failures.append((obligations[1], _line(src2, cm.start()), "the frame's cluster id is compared with `%s`, a value fixed for the life of the connection" % ours, f2))
+    samples.append("%s:%d compares payload_cluster_id with `%s`" % (f2, _line(src2, cm.start()), ours))
+    # (3) the broadcast loop
+    f3 = "crates/klukai-agent/src/broadcast/mod.rs"
+    src3, msk3, o3, c3 = _fn_body(f3, "handle_broadcasts")
+    lp = re.search(r"\bloop\s*\{", msk3[o3:c3])
+    if not lp:
+        raise LostAnchor("handle_broadcasts: main loop not found")
+    pre = msk3[o3:o3 + lp.start()]
+    bm = re.search(r"\blet\s+(?:mut\s+)?\w+\s*(?::[^=;]+)?=\s*agent\s*\.\s*cluster_id\s*\(\s*\)", pre)
+    if bm:
+        failures.append((obligations[2], _line(src3, o3 + bm.start()), "the cluster id is copied into a local before the broadcast loop and never re-read", f3))
+    n_calls = len(re.findall(r"agent\s*\.\s*cluster_id\s*\(\s*\)", msk3[o3 + lp.start():c3]))
+    samples.append("%s:%d %d reads of agent.cluster_id() inside the loop, none bound before it" % (f3, _line(src3, o3 + lp.start()), n_calls))
+    return obligations, failures, samples
+
+
+CHECKS = {"cluster_id_fresh": check_cluster_id_fresh, "schema_ddl": check_schema_ddl, "schema_atomic": check_schema_atomic, "seq_range_guard": check_seq_range_guard, "exits_covered": check_exits_covered, "sub_lag_stops": check_sub_lag_stops, "single_snapshot": check_single_snapshot, "offer_loops": check_offer_loops, "speedy_prealloc": check_speedy_prealloc, "from_conn": check_from_conn, "sql_actor_scoping": check_sql_actor_scoping, "local_write_sequence": check_local_write_sequence, "insert_local_changes": check_insert_local_changes, "authz_layer": check_authz_layer, "readonly_guard": check_readonly_guard, "read_pool": check_read_pool}
 
 
 def run_unit(prop, u, tier, ctx, here):
